@@ -1600,6 +1600,8 @@ def describe(kernels):
         arrs = sorted(lw.arr_ids, key=lambda n: lw.arr_ids[n])
         out.append(dict(
             name=k['name'], lean=lean_name(k['name']), file=k['file'], func=k['func'], dims=lw.dims,
+            params=list(lw.spec.get('_params', [])),
+            int_params=[p for p in lw.spec.get('_params', []) if lw.types.get(p) == 'int'],
             sites=lw.sites, vars=sorted(lw.var_ids, key=lambda n: lw.var_ids[n]), arrays=arrs,
             array_info={n: dict(static=lw.arr_info[n]['static'], size=lw.arr_info[n]['size'], float=lw.arr_info[n]['float'])
                         for n in arrs},
